@@ -74,45 +74,263 @@ Qed.
 Lemma shl1_u16_small i : i < 16 -> shl1_u16 i = Some (N.shiftl 1 i).
 Proof. intro H. unfold shl1_u16. apply N.ltb_lt in H. rewrite H. reflexivity. Qed.
 
+(* The scan both `next` perform, told WITHOUT the loop: the first position in [i, i + n) whose bit is set.
+   The proofs below do not depend on how the Rust code spells the loop (in `next` itself, in a shared
+   helper over `&mut self.index`, the cursor or the whole iterator as the loop state, `contains(Effects(1 << i))`
+   or `self.0 & (1 << i) != 0` as the test, the item built inside or after the loop): the translated loop
+   body is only asked to MEAN one step of this scan ([scan_loop]), see HACKING.d/robust_R1.md. *)
+Fixpoint e_find (e : N) (n : nat) (i : N) : option N :=
+  match n with
+  | O => None
+  | S k => if N.testbit e i then Some i else e_find e k (i + 1)
+  end.
+
+Lemma e_find_range e : forall n i j, e_find e n i = Some j -> i <= j /\ j < i + N.of_nat n.
+Proof.
+  induction n as [|k IH]; intros i j H; cbn [e_find] in H; [discriminate|].
+  destruct (N.testbit e i).
+  - injection H as <-. lia.
+  - apply IH in H. lia.
+Qed.
+
+(* the spellings of "bit i of e is set" *)
+Lemma land_bit e i : N.land e (N.shiftl 1 i) = if N.testbit e i then N.shiftl 1 i else 0.
+Proof.
+  apply N.bits_inj. intro k. rewrite N.land_spec, N.shiftl_1_l, N.pow2_bits_eqb.
+  destruct (N.eqb_spec i k) as [->|Hne].
+  - destruct (N.testbit e k) eqn:E; [rewrite N.pow2_bits_true | rewrite N.bits_0]; rewrite ?andb_true_r, ?andb_false_r; reflexivity.
+  - rewrite andb_false_r. destruct (N.testbit e i); [rewrite N.pow2_bits_false by exact Hne | rewrite N.bits_0]; reflexivity.
+Qed.
+
+Lemma shl1_nonzero i : N.shiftl 1 i <> 0.
+Proof. rewrite N.shiftl_1_l. apply N.pow_nonzero. discriminate. Qed.
+
+Lemma e_contains_bit e i : e_contains e (N.shiftl 1 i) = N.testbit e i.
+Proof.
+  unfold e_contains. rewrite N.land_comm, land_bit. destruct (N.testbit e i).
+  - apply N.eqb_refl.
+  - apply N.eqb_neq. intro H. symmetry in H. exact (shl1_nonzero i H).
+Qed.
+
+Lemma land_bit_ne0 e i : negb (N.land e (N.shiftl 1 i) =? 0) = N.testbit e i.
+Proof.
+  rewrite land_bit. destruct (N.testbit e i); [|reflexivity].
+  apply negb_true_iff, N.eqb_neq, shl1_nonzero.
+Qed.
+
+Lemma land_bit_ne0' e i : negb (N.land (N.shiftl 1 i) e =? 0) = N.testbit e i.
+Proof. rewrite N.land_comm. apply land_bit_ne0. Qed.
+
+Lemma land_bit_eq e i : (N.land e (N.shiftl 1 i) =? N.shiftl 1 i) = N.testbit e i.
+Proof. rewrite <- e_contains_bit. unfold e_contains. rewrite N.land_comm. reflexivity. Qed.
+
+Lemma land_bit_eq' e i : (N.land (N.shiftl 1 i) e =? N.shiftl 1 i) = N.testbit e i.
+Proof. rewrite N.land_comm. apply land_bit_eq. Qed.
+
+Lemma land_bit_eq0 e i : (N.land e (N.shiftl 1 i) =? 0) = negb (N.testbit e i).
+Proof. rewrite <- land_bit_ne0, negb_involutive. reflexivity. Qed.
+
+Lemma land_bit_eq0' e i : (N.land (N.shiftl 1 i) e =? 0) = negb (N.testbit e i).
+Proof. rewrite N.land_comm. apply land_bit_eq0. Qed.
+
+Lemma shr_bit_ne0 e i : negb (N.land (N.shiftr e i) 1 =? 0) = N.testbit e i.
+Proof.
+  rewrite <- (N.shiftl_0_r 1) at 1. rewrite land_bit_ne0, N.shiftr_spec', N.add_0_l. reflexivity.
+Qed.
+
+Lemma shr_bit_eq1 e i : (N.land (N.shiftr e i) 1 =? 1) = N.testbit e i.
+Proof.
+  change 1 with (N.shiftl 1 0). rewrite land_bit_eq, N.shiftr_spec', N.add_0_l. reflexivity.
+Qed.
+
+(* one call of `next` (hand model) in terms of the scan *)
+Lemma e_next_find {A} (item : N -> N -> A) e : forall n i, i + N.of_nat n = 12 ->
+  e_next item e n i
+  = Some (match e_find e n i with
+          | Some j => (mkEffIter (j + 1) e, Some (item j (N.shiftl 1 j)))
+          | None => (mkEffIter 12 e, None)
+          end).
+Proof.
+  induction n as [|k IH]; intros i Hi; cbn [e_next e_find].
+  - replace i with 12 by lia. reflexivity.
+  - rewrite shl1_u16_small by lia. cbv iota. rewrite e_contains_bit.
+    destruct (N.testbit e i); [reflexivity|]. apply IH. lia.
+Qed.
+
+(* ANY loop whose body, in a state that stands for position [i] ([mk i]: the iterator, the bare cursor, a tuple
+   with a result variable ..), leaves the loop with [hit i] (a `return` or a `break`, carrying whatever the code
+   carries) when bit [i] is set, goes on with the state of [i + 1] when it is not, and leaves with [endv] at the end
+   of the table, performs the scan.  [while_fuel] (a loop with a `return` inside) and [while_fuel0] (none). *)
+Definition lctl_is_next {S R} (c : lctl S R) : bool := match c with LNext _ => true | _ => false end.
+Definition lctl_stop {S R} (c : lctl S R) : S + R :=
+  match c with LRet r => inr r | LBreak s => inl s | LNext s => inl s end.
+
+Lemma scan_loop {St X} (step : St -> option (lctl St X)) (mk : N -> St) (hit : N -> lctl St X) (endv : lctl St X) e :
+  (forall i, i < 12 -> step (mk i) = Some (if N.testbit e i then hit i else LNext (mk (i + 1)))) ->
+  (forall i, lctl_is_next (hit i) = false) ->
+  step (mk 12) = Some endv ->
+  lctl_is_next endv = false ->
+  forall n i wf, i + N.of_nat n = 12 -> (n < wf)%nat ->
+  while_fuel wf step (mk i)
+  = Some (lctl_stop (match e_find e n i with Some j => hit j | None => endv end)).
+Proof.
+  intros Hstep Hhit Hend Hendv.
+  induction n as [|k IH]; intros i wf Hi Hwf; (destruct wf as [|wf]; [lia|]); cbn [while_fuel e_find].
+  - replace i with 12 by lia. rewrite Hend. destruct endv; try discriminate; reflexivity.
+  - rewrite Hstep by lia. destruct (N.testbit e i); [|apply IH; lia].
+    specialize (Hhit i). destruct (hit i); try discriminate; reflexivity.
+Qed.
+
+Lemma scan_loop0 {St} (step : St -> option (bctl St)) (mk : N -> St) (hit : N -> St) (endv : St) e :
+  (forall i, i < 12 -> step (mk i) = Some (if N.testbit e i then BBreak (hit i) else BNext (mk (i + 1)))) ->
+  step (mk 12) = Some (BBreak endv) ->
+  forall n i wf, i + N.of_nat n = 12 -> (n < wf)%nat ->
+  while_fuel0 wf step (mk i)
+  = Some (match e_find e n i with Some j => hit j | None => endv end).
+Proof.
+  intros Hstep Hend.
+  induction n as [|k IH]; intros i wf Hi Hwf; (destruct wf as [|wf]; [lia|]); cbn [while_fuel0 e_find].
+  - replace i with 12 by lia. rewrite Hend. reflexivity.
+  - rewrite Hstep by lia. destruct (N.testbit e i); [reflexivity|]. apply IH; lia.
+Qed.
+
+(* the same scan written as `for index in self.index..METADATA.len()`: the position is the loop variable, the
+   state [s] stays as it is until the loop is left *)
+Lemma scan_for {St X} (body : N -> St -> option (lctl St X)) (s : St) (hit : N -> lctl St X) e :
+  (forall j, j < 12 -> body j s = Some (if N.testbit e j then hit j else LNext s)) ->
+  (forall j, lctl_is_next (hit j) = false) ->
+  forall n i, i + N.of_nat n = 12 ->
+  for_list body (range_from i n) s
+  = Some (match e_find e n i with Some j => lctl_stop (hit j) | None => inl s end).
+Proof.
+  intros Hbody Hhit.
+  induction n as [|k IH]; intros i Hi; cbn [range_from for_list e_find]; [reflexivity|].
+  rewrite Hbody by lia. destruct (N.testbit e i); [|apply IH; lia].
+  specialize (Hhit i). destruct (hit i); try discriminate; reflexivity.
+Qed.
+
+Lemma scan_for0 {St} (body : N -> St -> option (bctl St)) (s : St) (hit : N -> St) e :
+  (forall j, j < 12 -> body j s = Some (if N.testbit e j then BBreak (hit j) else BNext s)) ->
+  forall n i, i + N.of_nat n = 12 ->
+  for_list0 body (range_from i n) s
+  = Some (match e_find e n i with Some j => hit j | None => s end).
+Proof.
+  intros Hbody.
+  induction n as [|k IH]; intros i Hi; cbn [range_from for_list0 e_find]; [reflexivity|].
+  rewrite Hbody by lia. destruct (N.testbit e i); [reflexivity|]. apply IH; lia.
+Qed.
+
+(* normalise a translated loop body applied to the state of a position *)
+Ltac scan_norm :=
+  cbv beta iota zeta;
+  cbn [ei_index ei_effects set_ei_index fst snd];
+  rewrite ?len_metadata;
+  unfold eff_new, eff_f0;
+  rewrite ?cshl_u16_one by lia;
+  cbv beta iota zeta;
+  cbn [ei_index ei_effects set_ei_index fst snd];
+  unfold eff_new, eff_f0;
+  rewrite ?g_eff_contains_eq;
+  rewrite ?e_contains_bit, ?land_bit_ne0, ?land_bit_ne0', ?land_bit_eq, ?land_bit_eq', ?land_bit_eq0, ?land_bit_eq0',
+          ?shr_bit_ne0, ?shr_bit_eq1.
+
+(* the ways of asking "is position j inside the table", for j < 12 *)
+Lemma in_table_tests j : j < 12 ->
+  (j <? 12) = true /\ (12 <=? j) = false /\ (j =? 12) = false /\ (12 =? j) = false /\ (12 <? j) = false /\ (j <=? 11) = true.
+Proof.
+  intro H. repeat split;
+    first [ apply N.ltb_lt; lia | apply N.leb_gt; lia | apply N.eqb_neq; lia | apply N.ltb_ge; lia | apply N.leb_le; lia ].
+Qed.
+
+(* side goal [forall j, j < 12 -> step (mk j) = Some (if N.testbit e j then ?hit j else <next> (mk (j + 1)))] *)
+Ltac scan_step_side step e :=
+  let j := fresh "j" in let Hj := fresh "Hj" in
+  intros j Hj; unfold step; scan_norm;
+  let T := fresh "T" in
+  destruct (in_table_tests j Hj) as (?T & ?T & ?T & ?T & ?T & ?T);
+  repeat match goal with
+         | H : _ = true |- _ => rewrite !H
+         | H : _ = false |- _ => rewrite !H
+         end;
+  cbn [negb];
+  scan_norm;
+  destruct (N.testbit e j); cbn [negb]; reflexivity.
+
+Ltac scan_side_of L tac :=
+  match type of L with
+  | ?P -> _ => let H := fresh "Hside" in assert (H : P); [ tac | specialize (L H); clear H ]
+  end.
+
+(* goal: [<translated next> (mkEffIter i e) = e_next item e n i] under [Hi : i + N.of_nat n = 12] *)
+Ltac scan_next e n i Hi :=
+  cbv zeta; cbn [ei_index ei_effects set_ei_index];
+  rewrite ?len_metadata;
+  try replace (N.to_nat (12 - i)) with n by lia;
+  let L := fresh "L" in
+  lazymatch goal with
+  | |- context [for_list ?f (range_from i n) ?s] =>
+      let step := fresh "step" in
+      set (step := f);
+      epose proof (scan_for step s _ e) as L;
+      scan_side_of L ltac:(scan_step_side step e);
+      scan_side_of L ltac:(intros; reflexivity);
+      specialize (L n i Hi); rewrite L; clear L
+  | |- context [for_list0 ?f (range_from i n) ?s] =>
+      let step := fresh "step" in
+      set (step := f);
+      epose proof (scan_for0 step s _ e) as L;
+      scan_side_of L ltac:(scan_step_side step e);
+      specialize (L n i Hi); rewrite L; clear L
+  | |- context [while_fuel ?wf ?f ?s] =>
+      let mkp := eval pattern i in s in
+      lazymatch mkp with
+      | ?mk _ =>
+          let step := fresh "step" in
+          set (step := f);
+          epose proof (scan_loop step mk _ _ e) as L;
+          scan_side_of L ltac:(scan_step_side step e);
+          scan_side_of L ltac:(intros; reflexivity);
+          scan_side_of L ltac:(unfold step; scan_norm; reflexivity);
+          scan_side_of L ltac:(reflexivity);
+          specialize (L n i wf Hi); cbv beta in L;
+          rewrite L by (cbn; lia); clear L
+      end
+  | |- context [while_fuel0 ?wf ?f ?s] =>
+      let mkp := eval pattern i in s in
+      lazymatch mkp with
+      | ?mk _ =>
+          let step := fresh "step" in
+          set (step := f);
+          epose proof (scan_loop0 step mk _ _ e) as L;
+          scan_side_of L ltac:(scan_step_side step e);
+          scan_side_of L ltac:(unfold step; scan_norm; reflexivity);
+          specialize (L n i wf Hi); cbv beta in L;
+          rewrite L by (cbn; lia); clear L
+      end
+  end;
+  rewrite (e_next_find _ e n i Hi);
+  let Hr := fresh "Hr" in
+  pose proof (e_find_range e n i) as Hr;
+  let j := fresh "j" in
+  destruct (e_find e n i) as [j|];
+  [ specialize (Hr j eq_refl) | clear Hr ];
+  cbv beta iota zeta delta [lctl_stop];
+  cbn [ei_index ei_effects set_ei_index fst snd];
+  unfold eff_new, eff_f0;
+  rewrite ?cshl_u16_one by lia;
+  cbv beta iota zeta;
+  cbn [ei_index ei_effects set_ei_index fst snd];
+  reflexivity.
+
 (* EffectIter::next, from any position inside the table *)
 Lemma g_eff_iter_next_eq e : forall n i, i + N.of_nat n = 12 ->
   g_eff_iter_next (mkEffIter i e) = e_next (fun _ effect => effect) e n i.
-Proof.
-  unfold g_eff_iter_next.
-  match goal with |- context [while_fuel _ ?f _] => set (step := f) end.
-  assert (L : forall n i wf, i + N.of_nat n = 12 -> (n < wf)%nat ->
-            (lr <- while_fuel wf step (mkEffIter i e) ;;
-             match lr with inl st => Some (st, None) | inr (st1, rv) => Some (st1, rv) end)
-            = e_next (fun _ effect => effect) e n i).
-  { induction n as [|k IH]; intros i wf Hi Hwf; (destruct wf as [|wf]; [lia|]); cbn [while_fuel e_next]; unfold step at 1;
-      cbn [ei_index ei_effects set_ei_index]; rewrite len_metadata.
-    - replace i with 12 by lia. reflexivity.
-    - assert (Hlt : i < 12) by lia. pose proof Hlt as Hb. apply N.ltb_lt in Hb. rewrite Hb.
-      rewrite cshl_u16_one, shl1_u16_small by lia. cbv iota. unfold eff_new. rewrite g_eff_contains_eq.
-      destruct (e_contains e (N.shiftl 1 i)); [reflexivity|].
-      apply IH; lia. }
-  intros n i Hi. apply L; [exact Hi | cbn; lia].
-Qed.
+Proof. intros n i Hi. unfold g_eff_iter_next. scan_next e n i Hi. Qed.
 
 (* EffectIndexIter::next *)
 Lemma g_eff_index_iter_next_eq e : forall n i, i + N.of_nat n = 12 ->
   g_eff_index_iter_next (mkEffIter i e) = e_next (fun index _ => index) e n i.
-Proof.
-  unfold g_eff_index_iter_next.
-  match goal with |- context [while_fuel _ ?f _] => set (step := f) end.
-  assert (L : forall n i wf, i + N.of_nat n = 12 -> (n < wf)%nat ->
-            (lr <- while_fuel wf step (mkEffIter i e) ;;
-             match lr with inl st => Some (st, None) | inr (st1, rv) => Some (st1, rv) end)
-            = e_next (fun index _ => index) e n i).
-  { induction n as [|k IH]; intros i wf Hi Hwf; (destruct wf as [|wf]; [lia|]); cbn [while_fuel e_next]; unfold step at 1;
-      cbn [ei_index ei_effects set_ei_index]; rewrite len_metadata.
-    - replace i with 12 by lia. reflexivity.
-    - assert (Hlt : i < 12) by lia. pose proof Hlt as Hb. apply N.ltb_lt in Hb. rewrite Hb.
-      rewrite cshl_u16_one, shl1_u16_small by lia. cbv iota. unfold eff_new. rewrite g_eff_contains_eq.
-      destruct (e_contains e (N.shiftl 1 i)); [reflexivity|].
-      apply IH; lia. }
-  intros n i Hi. apply L; [exact Hi | cbn; lia].
-Qed.
+Proof. intros n i Hi. unfold g_eff_index_iter_next. scan_next e n i Hi. Qed.
 
 (* draining ANY `next` that does what [e_next] does yields the hand model's list *)
 Lemma drain_e_next {A} (item : N -> N -> A) (next : eff_iter -> option (eff_iter * option A)) e :
